@@ -64,6 +64,8 @@ func evalC02(c string) Result {
 	s := string(unhx(f[1]))
 	switch f[0] {
 	case "C02.ip":
+		_ = netutil.IsValidIPPortString(s)
+		_ = netutil.IsValidHostname(s)
 		got := netutil.IsValidIPString(s)
 		_, err := netip.ParseAddr(s)
 		cl := "reject"
@@ -76,6 +78,7 @@ func evalC02(c string) Result {
 		}
 		return Result{Impl: showBoolGo(got), Direct: okIf(got == (err == nil), "ip", "IsValidIPString(%q)=%v but netip.ParseAddr err=%v", s, got, err), Class: cl}
 	case "C02.ipport":
+		_ = netutil.IsValidIPString(s)
 		got := netutil.IsValidIPPortString(s)
 		_, err := netip.ParseAddrPort(s)
 		cl := "trivial-reject"
